@@ -7,8 +7,9 @@ open Stack
 namespace DriverC20
 
 structure St where
-  /-- layers with their admission state (connections in flight / rate tokens left) -/
-  sl : List SLayer
+  stack : List LayerCfg
+  /-- admission state per layer (connections in flight / rate tokens left) -/
+  st : List Nat
   script : Script
   front : Caps
   ok : Bool
@@ -27,6 +28,8 @@ def parseKind : String → Option Kind
 def parseOpt (idx : Nat) (l : LayerCfg) (o : String) : Option LayerCfg :=
   if o == "s" then some { l with sticky := some ("sk" ++ toString idx) }
   else if o == "fr" then some { l with fallback := .redirect }
+  else if o == "t" then some { l with retry := true }
+  else if o == "v" then some { l with verbose := true }
   else
     let v := (o.drop 1).toString
     match v.toNat? with
@@ -103,7 +106,7 @@ def render (s : Script) (r : Result) : String :=
 /-- initial state as the harness sets it up: the layer at `iv` is driven to its limit (connlimit: max 1 with one parked request
 that also occupies one slot of every other connlimit, whose max is therefore 2; ratelimit: burst consumed); the other counting
 layers are far from theirs (connlimit max 1 with nothing in flight, 10^6 tokens). -/
-def initState (stack : List LayerCfg) (iv : Option Nat) : List SLayer :=
+def initState (stack : List LayerCfg) (iv : Option Nat) : List (LayerCfg × Nat) :=
   let parked : Nat := match iv with
     | some i => if (stack.getD i default).kind == Kind.connlimit then 1 else 0
     | none => 0
@@ -115,7 +118,7 @@ def initState (stack : List LayerCfg) (iv : Option Nat) : List SLayer :=
     | _ => ({ l with tripped := trip }, 0)
 
 def init (f : List String) : St × String :=
-  let bad := (⟨[], ⟨none, [], [], 0, false, [], false⟩, Caps.real, false⟩, "bad-cfg")
+  let bad := (⟨[], [], ⟨none, [], [], 0, false, [], false⟩, Caps.real, false⟩, "bad-cfg")
   let front : Option Caps := match Driver.kv f "front" with
     | none | some "real" => some Caps.real
     | some "nohijack" => some Caps.noHijack
@@ -125,10 +128,10 @@ def init (f : List String) : St × String :=
   match parseStack ((Driver.kv f "stack").getD "-"), parseScript ((Driver.kv f "h").getD ""), front with
   | some stack, some sc, some fr =>
     match Driver.kv f "intervene" with
-    | none | some "none" => (⟨initState stack none, sc, fr, true⟩, "ok")
+    | none | some "none" => (⟨(initState stack none).map (·.1), (initState stack none).map (·.2), sc, fr, true⟩, "ok")
     | some v =>
       match v.toNat? with
-      | some i => if i < stack.length then (⟨initState stack (some i), sc, fr, true⟩, "ok") else bad
+      | some i => if i < stack.length then (⟨(initState stack (some i)).map (·.1), (initState stack (some i)).map (·.2), sc, fr, true⟩, "ok") else bad
       | none => bad
   | _, _, _ => bad
 
@@ -138,8 +141,8 @@ def step (st : St) : List String → St × String
     let req : Req := ⟨Driver.kvNat rest "body" 0⟩
     let abort := Driver.kv rest "abort" == some "1"
     let h : Req → Script := fun r => { st.script with headers := st.script.headers ++ [("X-Req-Len", toString r.bodyLen)] }
-    let (o, sl') := serveSt st.sl h req abort st.front
-    ({ st with sl := sl' },
+    let (o, st') := serveSt st.stack st.st h req abort st.front
+    ({ st with st := st' },
       match o with
       | .served r => render (h req) r
       | .aborted k => s!"aborted invoked={k}")
